@@ -25,6 +25,7 @@ import (
 	"sort"
 	"strconv"
 	"strings"
+	"sync"
 	"time"
 
 	"github.com/prometheus/client_golang/prometheus"
@@ -166,6 +167,27 @@ func (s c16Series) visibility() [][2]int64 {
 type c16Server struct {
 	db  *c16DB
 	eng *promql.Engine
+	log *c16ReqLog // nil: requests are not recorded (other servers)
+}
+
+// what pint actually asked for: every parameter that selects the evaluation instants
+type c16InstantReq struct {
+	Query  string `json:"query"`
+	TimeMs *int64 `json:"time_ms"` // nil: no `time` parameter (the server evaluates at its own now)
+	AtMs   int64  `json:"received_at_ms"`
+}
+
+type c16RangeReq struct {
+	Query   string `json:"query"`
+	StartMs int64  `json:"start_ms"`
+	EndMs   int64  `json:"end_ms"`
+	StepMs  int64  `json:"step_ms"`
+}
+
+type c16ReqLog struct {
+	mu      sync.Mutex
+	Instant []c16InstantReq
+	Range   []c16RangeReq
 }
 
 func newC16Engine() *promql.Engine {
@@ -189,6 +211,7 @@ func (s *c16Server) ServeHTTP(w http.ResponseWriter, r *http.Request) {
 	switch {
 	case strings.HasSuffix(r.URL.Path, "/api/v1/query"):
 		ts := time.Now()
+		ir := c16InstantReq{Query: r.Form.Get("query"), AtMs: ts.UnixMilli()}
 		if v := r.Form.Get("time"); v != "" {
 			ms, err := fpParseTimeMs(v)
 			if err != nil {
@@ -196,6 +219,12 @@ func (s *c16Server) ServeHTTP(w http.ResponseWriter, r *http.Request) {
 				return
 			}
 			ts = time.UnixMilli(ms)
+			ir.TimeMs = &ms
+		}
+		if s.log != nil {
+			s.log.mu.Lock()
+			s.log.Instant = append(s.log.Instant, ir)
+			s.log.mu.Unlock()
 		}
 		q, err := s.eng.NewInstantQuery(ctx, c16Queryable{s.db}, nil, r.Form.Get("query"), ts)
 		if err != nil {
@@ -228,6 +257,11 @@ func (s *c16Server) ServeHTTP(w http.ResponseWriter, r *http.Request) {
 		if err1 != nil || err2 != nil || err3 != nil || stepMs <= 0 || endMs < startMs {
 			fpWriteError(w, 400, "bad_data", "invalid parameters")
 			return
+		}
+		if s.log != nil {
+			s.log.mu.Lock()
+			s.log.Range = append(s.log.Range, c16RangeReq{Query: r.Form.Get("query"), StartMs: startMs, EndMs: endMs, StepMs: stepMs})
+			s.log.mu.Unlock()
 		}
 		q, err := s.eng.NewRangeQuery(ctx, c16Queryable{s.db}, nil, r.Form.Get("query"),
 			time.UnixMilli(startMs), time.UnixMilli(endMs), time.Duration(stepMs)*time.Millisecond)
@@ -306,7 +340,13 @@ type c16Case struct {
 	Recording     []string `json:"recording_rules,omitempty"`
 	Alerting      []string `json:"alerting_rules,omitempty"`
 	// observations
-	Now      int64        `json:"now_ms,omitempty"`
+	Now      int64           `json:"now_ms,omitempty"`
+	After    int64           `json:"after_ms,omitempty"`
+	Attempts int             `json:"attempts,omitempty"`
+	Instant  []c16InstantReq `json:"instant_requests,omitempty"`
+	Range    []c16RangeReq   `json:"range_requests,omitempty"`
+	db0      c16DB
+	others0  []c16DB
 	Checked  []c16Sel     `json:"checked_selectors,omitempty"`
 	Problems []c16Problem `json:"problems,omitempty"`
 	Other    []c16Problem `json:"unattributed_problems,omitempty"`
@@ -341,7 +381,19 @@ func c16GenRuns(r *rand.Rand, t0, lb int64, classes *[]string, metric string) []
 		span := lb - 60*c16Minute
 		return c16Snap(t0 - 30*c16Minute - r.Int63n(span/(7*c16Minute)+1)*7*c16Minute)
 	}
-	switch r.Intn(9) {
+	recent := func() int64 { return int64(r.Intn(7)) * c16Minute } // 0..6 whole minutes
+	switch r.Intn(13) {
+	case 9, 12:
+		// first sample 0.5 .. 7.5 minutes before the probes: visible at every probe instant of the case
+		*classes = append(*classes, metric+":appeared-recently")
+		return [][2]int64{{c16Snap(t0 - 30_000 - recent()), c16Snap(future)}}
+	case 10:
+		// last sample such that the series stopped being visible 0.5 .. 7.5 minutes before the probes
+		*classes = append(*classes, metric+":disappeared-recently")
+		return [][2]int64{{c16Snap(before), c16Snap(t0 - 30_000 - recent() - c16LookbackMs)}}
+	case 11:
+		*classes = append(*classes, metric+":reappeared-recently")
+		return [][2]int64{{c16Snap(before), in()}, {c16Snap(t0 - 30_000 - recent()), c16Snap(future)}}
 	case 0, 1, 8:
 		*classes = append(*classes, metric+":present")
 		return [][2]int64{{c16Snap(before), c16Snap(future)}}
@@ -456,7 +508,7 @@ func c16GenExpr(r *rand.Rand) (string, string, bool, bool) {
 	case 8:
 		return "sum(" + s1 + ") or vector(0)", "fallback", false, true
 	case 9:
-		an := pick(r, []string{"A1", "A2"})
+		an := pick(r, []string{"A1", "A2", "A2", "m1"})
 		return pick(r, []string{
 			fmt.Sprintf(`ALERTS{alertname="%s"}`, an),
 			fmt.Sprintf(`ALERTS{alertname="%s", alertstate="firing"} > 0`, an),
@@ -501,15 +553,30 @@ func c16GenCase(r *rand.Rand, id int, t0 int64) *c16Case {
 	}
 	var b strings.Builder
 	b.WriteString("groups:\n- name: g\n  rules:\n")
-	if r.Intn(2) == 0 {
-		n := pick(r, []string{"job:m0:sum", "m1", "m2"})
-		c.Recording = append(c.Recording, n)
-		fmt.Fprintf(&b, "  - record: %s\n    expr: sum(up) by (job)\n", n)
-		c.classes = append(c.classes, "recording-rule")
+	// other rules of the checked set: rules of BOTH kinds, named like the metrics and like the alerts the expression may
+	// reference (a recording rule `m1` produces m1, an alerting rule `m1` does not; an alerting rule `A1` produces
+	// ALERTS{alertname="A1"}, a recording rule `A1` does not), before and after the rule under test
+	var after strings.Builder
+	names := append([]string{"job:m0:sum", "A1", "A2"}, c16Metrics...)
+	if ms := c16MetricsIn(c.Expr); len(ms) > 0 {
+		names = append(names, ms...) // favour the names the expression refers to
+		names = append(names, ms...)
 	}
-	if r.Intn(2) == 0 {
-		c.Alerting = append(c.Alerting, "A1")
-		b.WriteString("  - alert: A1\n    expr: up == 0\n")
+	for k := r.Intn(4); k > 0; k-- {
+		n := pick(r, names)
+		w := &b
+		if r.Intn(3) == 0 {
+			w = &after
+		}
+		if r.Intn(2) == 0 {
+			c.Recording = append(c.Recording, n)
+			fmt.Fprintf(w, "  - record: %s\n    expr: sum(up) by (job)\n", n)
+			c.classes = append(c.classes, "rule-set:recording/"+c16NameKind(n))
+		} else {
+			c.Alerting = append(c.Alerting, n)
+			fmt.Fprintf(w, "  - alert: %s\n    expr: up == 0\n", n)
+			c.classes = append(c.classes, "rule-set:alerting/"+c16NameKind(n))
+		}
 	}
 	switch r.Intn(8) {
 	case 0:
@@ -528,8 +595,30 @@ func c16GenCase(r *rand.Rand, id int, t0 int64) *c16Case {
 	} else {
 		fmt.Fprintf(&b, "  - record: test:rec\n    expr: '%s'\n", c.Expr)
 	}
+	b.WriteString(after.String())
 	c.Content = b.String()
 	return c
+}
+
+var c16MetricRe = regexp.MustCompile(`\bm[0-3]\b`)
+
+func c16MetricsIn(expr string) []string {
+	out := c16MetricRe.FindAllString(expr, -1)
+	if strings.Contains(expr, "ALERTS") {
+		out = append(out, regexp.MustCompile(`\bA[0-9]\b`).FindAllString(expr, -1)...)
+	}
+	return out
+}
+
+func c16NameKind(n string) string {
+	switch {
+	case strings.HasPrefix(n, "A"):
+		return "named-like-alert"
+	case strings.Contains(n, ":"):
+		return "other-name"
+	default:
+		return "named-like-metric"
+	}
 }
 
 // ---------------------------------------------------------------------------------------------
@@ -568,15 +657,27 @@ func c16NameMatchers(vs *promParser.VectorSelector) []*labels.Matcher {
 // c16Shift anchors a case generated with offsets relative to 0 at the (minute aligned) start of its own run, so the
 // designed slack around "now" holds however long the whole harness run takes.
 func c16Shift(c *c16Case) {
+	if c.Attempts == 0 {
+		c.db0, c.others0 = c.DB, c.Others // as generated: offsets relative to 0
+	}
+	c.Attempts++
 	c.T0 = time.Now().UnixMilli() / c16Minute * c16Minute
-	for _, db := range append([]*c16DB{&c.DB}, c16Ptrs(c.Others)...) {
-		for i := range db.Series {
-			for j := range db.Series[i].Runs {
-				db.Series[i].Runs[j][0] += c.T0
-				db.Series[i].Runs[j][1] += c.T0
+	shift := func(db c16DB) c16DB {
+		out := c16DB{Series: make([]c16Series, len(db.Series))}
+		for i, s := range db.Series {
+			out.Series[i] = c16Series{Labels: s.Labels, Runs: make([][2]int64, len(s.Runs))}
+			for j, run := range s.Runs {
+				out.Series[i].Runs[j] = [2]int64{run[0] + c.T0, run[1] + c.T0}
 			}
 		}
+		return out
 	}
+	c.DB = shift(c.db0)
+	c.Others = nil
+	for _, o := range c.others0 {
+		c.Others = append(c.Others, shift(o))
+	}
+	c.Checked, c.Problems, c.Other, c.Instant, c.Range, c.Fail, c.nontriv = nil, nil, nil, nil, nil, "", false
 }
 
 func c16Ptrs(dbs []c16DB) []*c16DB {
@@ -587,10 +688,27 @@ func c16Ptrs(dbs []c16DB) []*c16DB {
 	return out
 }
 
+// c16Run runs a case; a case during which the wall clock crosses a whole minute is run again from scratch (all
+// evaluation grids, slice boundaries and designed presence edges sit on whole minutes or half minutes, so within
+// one minute the verdict cannot depend on the instant at which each probe happens to be evaluated).
 func c16Run(c *c16Case) {
+	for {
+		c16RunOnce(c)
+		if (c.Now-5)/c16Minute == (c.After+5)/c16Minute || c.Attempts >= 5 {
+			return
+		}
+	}
+}
+
+func c16RunOnce(c *c16Case) {
 	c16Shift(c)
+	reqLog := &c16ReqLog{}
 	mk := func(db *c16DB, name string) (*promapi.FailoverGroup, func()) {
-		srv := httptest.NewServer(&c16Server{db: db, eng: newC16Engine()})
+		sv := &c16Server{db: db, eng: newC16Engine()}
+		if name == "prom" {
+			sv.log = reqLog
+		}
+		srv := httptest.NewServer(sv)
 		fg := promapi.NewFailoverGroup(name, srv.URL,
 			[]*promapi.Prometheus{promapi.NewPrometheus(name, srv.URL, "", nil, 30*time.Second, 8, 100000, nil)},
 			true, "up", []*regexp.Regexp{}, []*regexp.Regexp{}, nil)
@@ -654,6 +772,17 @@ func c16Run(c *c16Case) {
 	now := time.Now()
 	c.Now = now.UnixMilli()
 	problems := checks.NewSeriesCheck(fg).Check(ctx, *target, entries)
+	c.After = time.Now().UnixMilli()
+	reqLog.mu.Lock()
+	c.Instant = append([]c16InstantReq(nil), reqLog.Instant...)
+	c.Range = append([]c16RangeReq(nil), reqLog.Range...)
+	reqLog.mu.Unlock()
+	sort.SliceStable(c.Range, func(i, j int) bool {
+		if c.Range[i].Query != c.Range[j].Query {
+			return c.Range[i].Query < c.Range[j].Query
+		}
+		return c.Range[i].StartMs < c.Range[j].StartMs
+	})
 
 	// every vector selector of the expression, from the Prometheus parser (independent of pint's analysis)
 	var astSels []*promParser.VectorSelector
